@@ -75,7 +75,9 @@ def build(config):
             obj = MultiTestResult(obj)
         elif w == "multi2":
             # "inner1": only the first underlying result was configured with failfast
-            other = rec.TT(failfast=ff_inner and ff_mode != "inner1")
+            # "second-then-off": only the SECOND result was configured with failfast, and the
+            # multiplexer's own failfast is switched off after wrapping (off for all, then)
+            other = rec.TT(failfast=(ff_inner and ff_mode != "inner1") or ff_mode == "second-then-off")
             impl.leaves.append(other)
             obj = MultiTestResult(obj, other)
         elif w == "tfr":
@@ -90,6 +92,8 @@ def build(config):
             raise AssertionError(w)
     if ff_mode == "outer":
         obj.failfast = True
+    if ff_mode == "second-then-off":
+        obj.failfast = False
     impl.top = obj
     return impl
 
@@ -102,7 +106,7 @@ def configs(tier):
             for ws in itertools.product(WRAPPERS, repeat=d):
                 if d >= 2 and leaf == "text":
                     continue
-                for ff in ("off", "inner", "outer") + (("inner1",) if "multi2" in ws else ()):
+                for ff in ("off", "inner", "outer") + (("inner1",) if "multi2" in ws else ()) + (("second-then-off",) if ws[-1:] == ("multi2",) else ()):
                     if ff == "outer" and ws and ws[-1] not in FORWARDS_FAILFAST:
                         # only MultiTestResult / ExtendedToOriginalDecorator implement failfast
                         # themselves (they stop on a bad outcome whatever sits below them)
@@ -142,7 +146,7 @@ class System:
         self.double = len(config[1]) <= 1 and config[0] != "etsd" and "tfr" not in config[1]
 
     def fresh(self):
-        m = Model(self.config[2] != "off")
+        m = Model(self.config[2] not in ("off", "second-then-off"))
         m.hetero = self.config[2] == "inner1"
         return build(self.config), m
 
